@@ -57,8 +57,14 @@ def main(prop):
         from vlib import jasmapi as _j
 
         L1 = "".join(f"    {a}:\t{b:<21}\t{t}\n" for a, b, t in [("401126", "e8 05 00 00 00", "call   401130 <f>"), ("40112b", "85 c0", "test   %eax,%eax"), ("40112d", "74 0c", "je     40113b <g>"), ("40112f", "c3", "ret")])
-        plain = {"pattern": [{"call": ["401130"]}, {"test": ["%eax", "%eax"]}, {"je": ["40113b"]}]}
+        plain = {"pattern": [{"cal": ["4011"]}, {"tes": ["eax", "ax"]}, {"je": ["40113"]}]}   # names that only match as substrings
         fresh = _j.run_pipeline(plain, L1, only_addr=True)
+        # matchers constructed first and run afterwards: each is compiled and run with ITS OWN options
+        strict = {"config": {"mnemonics-full-match": True, "operands-full-match": True}, "pattern": [{"cal": ["4011"]}]}
+        res = _j.constructed_first_results([strict, plain, strict], L1)
+        run.count("traces_validated_against_impl")
+        if res != [[], ["401126"], [], []]:
+            run.failure("item_sequence/CONSTRUCTED-FIRST", f"three matchers (full-match rule that must not be found, substring rule that must be found, full-match rule) constructed first, then run, the first run twice: {res}, expected [[], ['401126'], [], []]", {"kind": "sequence", "items": [], "seq": []})
         # the same listing stored with CRLF line ends, under every flag setting (a stray '\r' would only show under full match)
         L2 = "".join(f"    {a}:\t{b:<21}\t{t}\n" for a, b, t in [("1000", "55", "push   %rbp"), ("1001", "48 89 e5", "mov    %rsp,%rbp"), ("1004", "31 c0", "xor    %eax,%eax"), ("1006", "c9", "leave"), ("1007", "c3", "ret")])
         for mf, of in T.FLAGS:
@@ -115,6 +121,10 @@ def main(prop):
                 run.count("traces_validated_against_impl")
                 if a in got2:
                     run.failure("item/RARE-SHAPE/rotated", f"instruction at {a}: rule {m}: {rot} (operand names rotated) is found there although operand k does not contain name k", {"kind": "sequence", "items": [], "seq": []})
+    if prop == "C03":
+        from checks import c11 as _c11b
+
+        _c11b.nested_long_probe(run, key="ins_nested/LONG-LISTING")
     if prop == "C04":
         # the typing of a $not must not depend on what was compiled before in the same process
         seq_items = [
